@@ -17,8 +17,10 @@ A `Schema` describes one message class of `autobahn/wamp/message.py` declarative
 
 `Schema.parse` mirrors the control flow of the real `parse` + constructor: length check, positional checks
 in order, payload-mode decision, `enc_*`, args, kwargs, option entries in order (these raise
-`ProtocolError` / `InvalidUriError`), then the constructor's `assert`s on values `parse` did not validate
-(`AssertionError` — finding F3), then `_validate_kwargs` (`ProtocolError`).  Every exit carries the
+`ProtocolError` / `InvalidUriError`), the cross-field checks of `parse` (`ProtocolError`), then the constructor's
+`assert`s (`AssertionError`), then `_validate_kwargs` (`ProtocolError`).  Since the F3 repair every value the
+constructor asserts on has been validated by `parse` before; that the assertions are unreachable from `parse` is a
+theorem (`ctor_unreachable`, Proofs/Lemmas/SchemaCtor.lean), not a modelling decision.  Every exit carries the
 exception class the real code raises and the field (`site`) whose check failed.
 -/
 namespace Abverif.Wamp
@@ -26,8 +28,7 @@ namespace Abverif.Wamp
 inductive ErrClass
   | protocol      -- autobahn.wamp.exception.ProtocolError
   | invalidUri    -- autobahn.wamp.exception.InvalidUriError (subclass of ProtocolError? no: of Error) — kept apart
-  | assertion     -- AssertionError out of a constructor (F3)
-  | typeError     -- TypeError (HELLO/WELCOME role features named `self`)
+  | assertion     -- AssertionError out of a constructor (unreachable from `parse`: theorem `ctor_unreachable`)
   deriving DecidableEq, Repr, Inhabited
 
 structure Err where
@@ -39,7 +40,6 @@ def ErrClass.name : ErrClass → String
   | .protocol => "ProtocolError"
   | .invalidUri => "InvalidUriError"
   | .assertion => "AssertionError"
-  | .typeError => "TypeError"
 
 /-- the library's own protocol-level errors: what C08 allows `parse` to raise -/
 def ErrClass.allowed : ErrClass → Bool
@@ -124,16 +124,22 @@ inductive OTy
   | str
   | strEnum (vals : List Str)
   | listInt
+  /-- a WAMP id: `check_or_raise_id` (int in [0, 2^53]) -/
+  | id
+  /-- a list of WAMP ids (PUBLISH.exclude / eligible): `check_or_raise_id` on every item -/
+  | listId
   | listStr
   | dict
   | uri (fl : UriFlags)
   /-- `itemsAtParse` = the `for … break … valid = True` loop has been repaired to `for/else` (regenerated
   from the source on every run); today `false`: any list passes `parse` -/
   | forwardFor (itemsAtParse : Bool)
-  /-- `options.get(k)` then `v not in [True, False, None]` (REGISTER.force_reregister) -/
-  | boolLoose
-  /-- `details.get(k)`, nothing checked in `parse` (WELCOME) -/
-  | unchecked
+  /-- `options.get(k)` then `v is not None and type(v) != bool` (REGISTER.force_reregister) -/
+  | boolOrNull
+  /-- `details.get(k)` then `v is not None and type(v) != str` (WELCOME realm, authid, authrole, authmethod, authprovider) -/
+  | strOrNull
+  /-- `details.get(k)` then `v is not None and type(v) != dict` (WELCOME authextra) -/
+  | dictOrNull
   /-- HELLO/WELCOME `roles`: role name ↦ `{"features": {name: bool}}`; `allowed` role names, `feats` = role.py -/
   | roles (allowed : List Str) (feats : List (Str × List Str))
 
@@ -141,6 +147,11 @@ inductive OTy
 def allInt : List WVal → Bool
   | [] => true
   | .int _ :: xs => allInt xs
+  | _ => false
+
+def allId : List WVal → Bool
+  | [] => true
+  | .int i :: xs => idOk i && allId xs
   | _ => false
 
 def allStr : List WVal → Bool
@@ -164,11 +175,10 @@ def featBad (fd : Dict) (f : Str) : Bool :=
 def featCanon (fd : Dict) (known : List Str) : Dict :=
   known.filterMap (fun f => match fd.get? f with | some (.bool b) => some (f, .bool b) | _ => none)
 
-/-- `role_cls(**features)`: a key named `self` collides with the bound argument (`TypeError`), unknown names are
+/-- `role_cls(**features)`: unknown names (also one spelled `self`: the bound argument is positional-only) are
 swallowed by `**kwargs`, then `_check_all_bool` -/
 def featuresCheck (site : Str) (known : List Str) (fd : Dict) : Except Err Dict :=
-  if fd.any (fun kv => kv.1 == cs!"self") then fail .typeError site
-  else if known.any (featBad fd) then fail .protocol site
+  if known.any (featBad fd) then fail .protocol site
   else .ok (featCanon fd known)
 
 def roleKnown (feats : List (Str × List Str)) (role : Str) : List Str :=
@@ -223,6 +233,10 @@ def OTy.check (O : Oracles) (site : Str) : OTy → WVal → R
   | .strEnum _, _ => fail .protocol site
   | .listInt, .list xs => if allInt xs then .ok (.list xs) else fail .protocol site
   | .listInt, _ => fail .protocol site
+  | .id, .int i => if idOk i then .ok (.int i) else fail .protocol site
+  | .id, _ => fail .protocol site
+  | .listId, .list xs => if allId xs then .ok (.list xs) else fail .protocol site
+  | .listId, _ => fail .protocol site
   | .listStr, .list xs => if allStr xs then .ok (.list xs) else fail .protocol site
   | .listStr, _ => fail .protocol site
   | .dict, .dict kvs => .ok (.dict kvs)
@@ -232,9 +246,16 @@ def OTy.check (O : Oracles) (site : Str) : OTy → WVal → R
   | .forwardFor atParse, .list xs =>
       if atParse && !(xs.all ffItemParseOk) then fail .protocol site else .ok (.list xs)
   | .forwardFor _, _ => fail .protocol site
-  | .boolLoose, .null => .ok .null
-  | .boolLoose, v => if v.eqTrue || v.eqFalse then .ok v else fail .protocol site
-  | .unchecked, v => .ok v
+  | .boolOrNull, .null => .ok .null
+  | .boolOrNull, .bool b => .ok (.bool b)
+  | .boolOrNull, _ => fail .protocol site
+  | .strOrNull, .null => .ok .null
+  | .strOrNull, .str s => .ok (.str s)
+  | .strOrNull, _ => fail .protocol site
+  | .dictOrNull, .null => .ok .null
+  | .dictOrNull, .dict kvs => .ok (.dict kvs)
+  | .dictOrNull, .dictNS kvs => .ok (.dictNS kvs)
+  | .dictOrNull, _ => fail .protocol site
   | .roles allowed feats, v => rolesCheck site allowed feats v
 
 /-- how `marshal` writes a field value of this type into the options (identity except for `roles`) -/
@@ -263,20 +284,14 @@ inductive MMode
   | truthy                  -- `if self.x:`
   | neqDefault (d : Str)    -- `if self.x and self.x != DEFAULT:`
   | always                  -- written unconditionally (HELLO/WELCOME roles)
-  | ifTruthy (other : Str)  -- `if self.<other>: details[key] = self.x` (WELCOME.authmethod is guarded by authrole)
 
 
-/-- `v` = the field's own value, `o` = the value of the guarding field (only `ifTruthy` looks at it) -/
-def MMode.emits : MMode → WVal → WVal → Bool
-  | .notNone, v, _ => !v.isNull
-  | .truthy, v, _ => v.truthy
-  | .neqDefault d, v, _ => v.truthy && !(match v with | .str s => s == d | _ => false)
-  | .always, _, _ => true
-  | .ifTruthy _, _, o => o.truthy
-
-def MMode.guard : MMode → Str
-  | .ifTruthy o => o
-  | _ => []
+/-- `v` = the field's value -/
+def MMode.emits : MMode → WVal → Bool
+  | .notNone, v => !v.isNull
+  | .truthy, v => v.truthy
+  | .neqDefault d, v => v.truthy && !(match v with | .str s => s == d | _ => false)
+  | .always, _ => true
 
 structure OptStep where
   field : Str
@@ -290,9 +305,6 @@ structure OptStep where
   /-- absent ⇒ `ProtocolError` when the option with this key is truthy
   (HELLO: resume-token / resume-session, WELCOME: resume_token / resumable) -/
   absentErrIf : Option Str := none
-  /-- Spec only: the integer(s) are WAMP ids (session / subscription / registration ids), so C08 expects them in
-  [0, 2^53] although today's `parse` only checks `type(x) == int` -/
-  idLike : Bool := false
 
 /-- one typed entry: `if key in options: check` (absent ⇒ default) -/
 def OptStep.parse (O : Oracles) (d : Dict) (s : OptStep) : R :=
@@ -360,17 +372,14 @@ inductive ArgsVariant
   deriving DecidableEq
 
 structure TailSpec where
-  /-- `type(wmsg[i]) in [str, bytes]` (PUBLISH, CALL, RESULT) instead of `== bytes` -/
-  payloadStrOk : Bool
   variant : ArgsVariant
 
 
-/-- payload mode: exactly one extra element and it is bytes (or str where the class says so) -/
-def payloadMode (t : TailSpec) (k : Nat) (w : List WVal) : Bool :=
+/-- payload mode: exactly one extra element and it is bytes (`type(wmsg[i]) == bytes`, all seven classes) -/
+def payloadMode (k : Nat) (w : List WVal) : Bool :=
   w.length == k + 2 &&
     (match w.getD (k + 1) .null with
      | .bytes _ => true
-     | .str _ => t.payloadStrOk
      | _ => false)
 
 /-- `is_valid_enc_algo` / `is_valid_enc_serializer` -/
@@ -382,10 +391,14 @@ def validEncSer (O : Oracles) : WVal → Bool
   | .str s => strMem s Generated.WampCodes.encSerializers || O.customAttr s
   | _ => false
 
-/-- `x = d.get(k); if x and not valid(x): raise ProtocolError` -/
+/-- `x = d.get(k); if x is not None and not valid(x): raise ProtocolError` -/
 def encGet (d : Dict) (key : Str) (valid : WVal → Bool) : R :=
   let v := (d.get? key).getD .null
-  if v.truthy && !valid v then fail .protocol key else .ok v
+  if !v.isNull && !valid v then fail .protocol key else .ok v
+
+/-- `if enc_algo is None and (enc_key is not None or enc_serializer is not None): raise ProtocolError` -/
+def encTripleGate (algo key ser : WVal) : Except Err Unit :=
+  if algo.isNull && (!key.isNull || !ser.isNull) then fail .protocol cs!"enc_key" else pure ()
 
 /-- `args = wmsg[k+1]` type check -/
 def checkArgs : ArgsVariant → WVal → R
@@ -411,10 +424,11 @@ def kwargsPart (t : TailSpec) (k : Nat) (w : List WVal) : R :=
 
 /-- the six tail fields, in the order the real `parse` evaluates them -/
 def parseTail (O : Oracles) (t : TailSpec) (k : Nat) (d : Dict) (w : List WVal) : Except Err Msg :=
-  if payloadMode t k w then do
+  if payloadMode k w then do
     let algo ← encGet d cs!"enc_algo" (validEncAlgo O)
     let key ← encGet d cs!"enc_key" WVal.isStr
     let ser ← encGet d cs!"enc_serializer" (validEncSer O)
+    encTripleGate algo key ser
     pure [(cs!"args", .null), (cs!"kwargs", .null), (cs!"payload", w.getD (k + 1) .null),
           (cs!"enc_algo", algo), (cs!"enc_key", key), (cs!"enc_serializer", ser)]
   else do
@@ -423,7 +437,9 @@ def parseTail (O : Oracles) (t : TailSpec) (k : Nat) (d : Dict) (w : List WVal) 
     pure [(cs!"args", args), (cs!"kwargs", kwargs), (cs!"payload", .null),
           (cs!"enc_algo", .null), (cs!"enc_key", .null), (cs!"enc_serializer", .null)]
 
-/-! ### cross-field constructor assertions -/
+/-! ### cross-field constructor assertions
+
+(`zeroExcl` is also checked by `parse` itself, with `ProtocolError`: `Schema.pcross`) -/
 
 inductive Cross
   /-- `assert payload is None or type(payload) == bytes` -/
@@ -434,6 +450,7 @@ inductive Cross
   | encTriple
   /-- UNSUBSCRIBED / UNREGISTERED: `if a is not None and b is not None: assert (a != 0 and b is None) or (a == 0 and b != 0)` -/
   | zeroExcl (a b : Str)
+  deriving DecidableEq
 
 
 def Cross.site : Cross → Str
@@ -468,11 +485,14 @@ structure Schema where
   tail : Option TailSpec := none
   opts : List OptStep := []
   cross : List Cross := []
+  /-- the cross-field conditions that `parse` itself checks (`ProtocolError`) after the options, before it calls the
+  constructor (UNSUBSCRIBED / UNREGISTERED: `subscription`/`registration` detail only with request 0 and non-zero) -/
+  pcross : List Cross := []
   /-- WELCOME: every details key matching `_CUSTOM_ATTRIBUTE` is collected into the field `custom`
   and written back at top level by `marshal` -/
   custom : Bool := false
-  /-- the constructor's checks on unvalidated values are `assert`s (`AssertionError`, finding F3).  Flip to `false`
-  once the class raises `ProtocolError` for them instead: the checks stay, only their exception class changes. -/
+  /-- the constructor's checks are `assert`s (`AssertionError`).  Flip to `false` should a class raise `ProtocolError`
+  for them instead: the checks stay, only their exception class changes. -/
   ctorAsserts : Bool := true
 
 namespace Schema
@@ -541,8 +561,8 @@ def tailPart (σ : Schema) (O : Oracles) (w : List WVal) : Except Err Msg :=
 def customPart (σ : Schema) (O : Oracles) (w : List WVal) : Msg :=
   if σ.custom then [(cs!"custom", .dict ((σ.optsOf w).filter (fun kv => O.customAttr kv.1)))] else []
 
-/-- the body of `Klass.parse` up to the constructor call: everything that raises `ProtocolError` / `InvalidUriError` -/
-def parseStage (σ : Schema) (O : Oracles) (w : List WVal) : Except Err Msg :=
+/-- the field-by-field part of `Klass.parse`: length, positions, tail, options (`ProtocolError` / `InvalidUriError`) -/
+def parseFields (σ : Schema) (O : Oracles) (w : List WVal) : Except Err Msg :=
   if !(σ.lengths.contains w.length) then fail .protocol cs!"length"
   else do
     let pm ← parsePos O w σ.pos w.tail
@@ -550,8 +570,15 @@ def parseStage (σ : Schema) (O : Oracles) (w : List WVal) : Except Err Msg :=
     let om ← parseOpts O (σ.optsOf w) σ.opts
     pure (pm ++ tm ++ om ++ σ.customPart O w)
 
-/-- the constructor `Klass(...)` called at the end of `parse`: its `assert`s on values `parse` did not validate
-(`AssertionError`), then `_validate_kwargs` (`ProtocolError`) -/
+/-- the body of `Klass.parse` up to the constructor call: the fields, then the cross-field checks `parse` makes
+itself (`ProtocolError`) -/
+def parseStage (σ : Schema) (O : Oracles) (w : List WVal) : Except Err Msg := do
+  let m ← σ.parseFields O w
+  ctorCross .protocol O m σ.pcross
+  pure m
+
+/-- the constructor `Klass(...)` called at the end of `parse`: its `assert`s (`AssertionError`), then
+`_validate_kwargs` (`ProtocolError`) -/
 def ctorStage (σ : Schema) (O : Oracles) (m : Msg) : Except Err Unit := do
   ctorOpts σ.ctorErr m σ.opts
   ctorCross σ.ctorErr O m σ.cross
@@ -566,7 +593,7 @@ def parse (σ : Schema) (O : Oracles) (w : List WVal) : Except Err Msg := do
 /-! ### marshal -/
 
 def marshalOpt (m : Msg) (s : OptStep) : Dict :=
-  if s.mm.emits (m.get s.field) (m.get s.mm.guard) then [(s.key, s.ty.encode (m.get s.field))] else []
+  if s.mm.emits (m.get s.field) then [(s.key, s.ty.encode (m.get s.field))] else []
 
 def encEntry (m : Msg) (f : Str) : Dict := if (m.get f).isNull then [] else [(f, m.get f)]
 
